@@ -97,7 +97,7 @@ Qed.
 
 Lemma hinv_write_inline m objs pads m' q v :
   hinv m objs pads -> In q ((0, 0) :: flat_map slots objs) ->
-  (v = 0 \/ v = empty_struct_word) ->
+  (v = 0 \/ v = empty_struct_word \/ exists idx, 0 <= idx < 4294967296 /\ v = rawInterfacePointer idx) ->
   writeRawPointer m (fst q) (snd q) v = Ok m' ->
   hinv m' objs pads.
 Proof.
@@ -113,11 +113,14 @@ Proof.
   - rewrite N. apply (hi_nsegs _ _ _ H).
   - intros p [].
   - (* the new word *)
-    assert (Hw64 : word64 v) by (destruct Hv as [-> | ->]; unfold word64, empty_struct_word; lia).
+    assert (Hw64 : word64 v).
+    { destruct Hv as [-> |[-> |(idx & Hi & ->)]]; unfold word64, empty_struct_word; try lia.
+      rewrite rawInterfacePointer_sum by assumption. lia. }
     assert (RD : word_at (bm_data m') (fst q) (snd q) = Some v).
     { apply word_at_mem; [rewrite N; exact Q1| |pose proof (hi_small _ _ _ H (fst q)); unfold maxSegmentSize in *; lia].
       apply (wrote_word_back m m'); auto. pose proof (hi_small _ _ _ H (fst q)). unfold maxSegmentSize in *. lia. }
-    rewrite app_nil_r. destruct Hv as [-> | ->]; [left; exact RD|right; left; exact RD].
+    rewrite app_nil_r. destruct Hv as [-> |[-> |(idx & Hi & ->)]]; [left; exact RD|right; left; exact RD|].
+    right. right. right. exists idx. auto.
 Qed.
 
 (* ------------------------------------------------------------------ handles and table objects *)
@@ -138,7 +141,8 @@ Proof. reflexivity. Qed.
 Lemma write_ptr_hinv f w objs pads q src w' :
   hinv (w_dst w) objs pads -> In q ((0, 0) :: flat_map slots objs) ->
   (p_valid src = false \/ In (core src) objs /\ p_member src = false \/
-   p_kind src = KStruct /\ os_isZero (p_size src) = true) ->
+   p_kind src = KStruct /\ os_isZero (p_size src) = true \/
+   p_kind src = KIface /\ 0 <= p_len src < 4294967296) ->
   write_ptr (S f) true w (fst q) (snd q) InDst src false = Ok w' ->
   nsegs (w_dst w') < 4294967296 ->
   exists pads', hinv (w_dst w') objs (pads ++ pads').
@@ -148,7 +152,12 @@ Proof.
   2:{ unfold lift0 in HW. destruct (writeRawPointer (w_dst w) (fst q) (snd q) 0) as [m'| |] eqn:EW; cbn [bind] in HW; try discriminate.
       apply Ok_inj in HW. subst w'. cbn [w_dst w_set_dst] in *. exists []. rewrite app_nil_r.
       apply (hinv_write_inline (w_dst w) objs pads m' q 0); auto. }
-  destruct Hsrc as [X|[[Hin Hmem]|[EK0 EZ0]]]; [discriminate| |].
+  destruct Hsrc as [X|[[Hin Hmem]|[[EK0 EZ0]|[EKc Hidx]]]]; [discriminate| | |].
+  3:{ rewrite EKc in HW. cbn [is_src] in HW. unfold lift0 in HW.
+      destruct (writeRawPointer (w_dst w) (fst q) (snd q) (rawInterfacePointer (p_len src))) as [m'| |] eqn:EW; cbn [bind] in HW; try discriminate.
+      apply Ok_inj in HW. subst w'. cbn [w_dst w_set_dst] in *. exists []. rewrite app_nil_r.
+      apply (hinv_write_inline (w_dst w) objs pads m' q (rawInterfacePointer (p_len src))); auto.
+      right. right. exists (p_len src). auto. }
   2:{ rewrite EK0, EZ0 in HW. rewrite empty_struct_word_eq in HW. cbn [of_opt_panic bind] in HW. unfold lift0 in HW.
       destruct (writeRawPointer (w_dst w) (fst q) (snd q) empty_struct_word) as [m'| |] eqn:EW; cbn [bind] in HW; try discriminate.
       apply Ok_inj in HW. subst w'. cbn [w_dst w_set_dst] in *. exists []. rewrite app_nil_r.
@@ -288,9 +297,10 @@ Definition member_at (h : Ptr) (i : Z) (p : Ptr) : Prop :=
   p_size p = p_size h /\ p_kind p = KStruct /\ p_member p = true.
 
 Definition empty_view (p : Ptr) : Prop := p_kind p = KStruct /\ p_size p = mkOS 0 0 /\ p_member p = false.
+Definition cap_view (p : Ptr) : Prop := p_kind p = KIface /\ 0 <= p_len p < 4294967296.
 Definition view (objs : list Ptr) (p : Ptr) : Prop :=
   p_valid p = false \/ (p_member p = false /\ In (core p) objs) \/ (exists h i, In h objs /\ member_at h i p) \/
-  empty_view p.
+  empty_view p \/ cap_view p.
 
 Definition pool_ok (objs : list Ptr) (st : bstate) : Prop :=
   Forall (fun x => fst x = InDst /\ view objs (snd x)) (st_h st).
@@ -333,7 +343,7 @@ Qed.
 (* a valid list handle is a handle of a table object *)
 Lemma list_view objs p : view objs p -> p_valid p = true -> p_kind p = KList -> In (core p) objs /\ p_member p = false.
 Proof.
-  intros [V|[[M V]|[(h & i & Hh & (_ & _ & _ & _ & _ & _ & _ & Ek & _))|(Ek & _)]]] Hv Hk; [congruence|auto|congruence|congruence].
+  intros [V|[[M V]|[(h & i & Hh & (_ & _ & _ & _ & _ & _ & _ & Ek & _))|[(Ek & _)|(Ek & _)]]]] Hv Hk; [congruence|auto|congruence|congruence|congruence].
 Qed.
 
 (* a valid struct handle: where its sections lie in the table object that holds it *)
@@ -369,7 +379,7 @@ Lemma struct_view_geom m objs pads p :
     (forall q lo hi, In q (slots h) -> p_off p <= lo -> hi <= p_off p + DataSize (p_size p) -> hi <= snd q \/ snd q + 8 <= lo) /\
     (forall j, 0 <= j < PointerCount (p_size p) -> In (p_seg p, p_off p + DataSize (p_size p) + 8 * j) (slots h)).
 Proof.
-  intros H V Hv Ek. destruct V as [V|[[M V]|[(h & i & Hh & MA)|(_ & V & _)]]]; [congruence| | |left; exact V]; right.
+  intros H V Hv Ek. destruct V as [V|[[M V]|[(h & i & Hh & MA)|[(_ & V & _)|(V & _)]]]]; [congruence| | |left; exact V|congruence]; right.
   - (* a table struct *)
     destruct (core_facts p) as (C1 & C2 & C3 & C4 & C5 & C6 & C7).
     destruct (hi_good _ _ _ H _ V) as [_ G]. destruct G as (Sh & _). apply (proj1 C7) in Sh. unfold shape_ok in Sh. rewrite Ek in Sh.
@@ -528,6 +538,8 @@ Definition sub_op (o : bop) : bool :=
   | BNewBit _ _ | BNewPList _ _ | BNewVoid _ _ => true
   | BNewComp _ dsz pc _ => (0 <=? dsz) && (0 <=? pc) && (pc <? 65536)
   | BNewBytes _ v _ => zlen v <? 536870911
+  | BNewCap _ idx => (0 <=? idx) && (idx <? 4294967296)
+  | BAddCap _ => true
   | BSetUint _ off n _ => (0 <=? off) && width_b n
   | BSetBit _ n _ => 0 <=? n
   | BListSetUint _ _ n _ => width_b n
@@ -539,7 +551,7 @@ Definition sub_op (o : bop) : bool :=
   | BRead _ (OSPtr _ i) => 0 <=? i
   | BRead _ (OLStruct _ _) | BRead _ (OPLAt _ _) => true
   | BRead _ o => ro_op o
-  | BRoundTrip _ _ _ | BDump _ => true
+  | BRoundTrip _ _ _ | BDump _ | BReopen => true
   | _ => false
   end.
 
@@ -592,6 +604,18 @@ Proof.
   - destruct Hi as [A B]. split; [unfold bmsg_wf; now rewrite E1|unfold arena_wf; now rewrite E1, E2].
   - intros i. rewrite EM. apply Hsm.
   - unfold nsegs. rewrite E1. exact Hns.
+Qed.
+
+(* the invariant speaks about the segment bytes only *)
+Lemma hinv_same_data m m1 objs pads :
+  hinv m objs pads -> bm_data m1 = bm_data m -> inv m1 -> hinv m1 objs pads.
+Proof.
+  intros [Hi Hsm Hns Hg Htg Hin Hpd HdO HdP Hcr Hs] ED I1.
+  assert (EM : forall i, mem m1 i = mem m i) by (intros i; rewrite <- !nth_bm_data; now rewrite ED).
+  assert (EN : nsegs m1 = nsegs m) by (rewrite <- !zlen_bm; now rewrite ED).
+  constructor; auto; try (rewrite ED; auto).
+  - intros i. rewrite EM. apply Hsm.
+  - rewrite EN. exact Hns.
 Qed.
 
 Lemma write_ptr_invalid_loc f strict w d o l src fc : p_valid src = false ->
@@ -655,11 +679,13 @@ Proof.
   rewrite (hget_dst st objs pads hs S) in HW.
   destruct (hget_view st objs pads hs S) as [Vw _]. set (q := snd (hget st hs)) in *.
   assert (Hsrc : p_valid q = false \/ In (core q) objs /\ p_member q = false \/
-                 p_kind q = KStruct /\ os_isZero (p_size q) = true).
+                 p_kind q = KStruct /\ os_isZero (p_size q) = true \/
+                 p_kind q = KIface /\ 0 <= p_len q < 4294967296).
   { destruct (p_valid q) eqn:EVq; [right|left; reflexivity].
-    destruct Vw as [V|[[M V]|[(h & i & Hh & MA)|(Ek & Esz & _)]]]; [congruence|auto| |].
+    destruct Vw as [V|[[M V]|[(h & i & Hh & MA)|[(Ek & Esz & _)|CV]]]]; [congruence|auto| | |].
     - destruct MA as (_ & _ & _ & _ & _ & _ & _ & _ & Mt). rewrite (Hpl eq_refl) in Mt. discriminate.
-    - right. split; [exact Ek|]. rewrite Esz. reflexivity. }
+    - right. left. split; [exact Ek|]. rewrite Esz. reflexivity.
+    - right. right. exact CV. }
   destruct f as [|f]; [discriminate HW|].
   destruct (write_ptr_hinv f (st_w st) objs pads (sd, ad) q w1 H Hq Hsrc HW Hns) as [pads' H'].
   exists (pads ++ pads'). split; [exact H'|exact P].
@@ -668,11 +694,13 @@ Qed.
 (* ------------------------------------------------------------------ read ops that hand out handles *)
 Lemma view_of_read m objs pads q depth p :
   hinv m objs pads -> cores objs ->
-  (p = nullPtr \/ p = empty_handle q depth \/ exists h, In h objs /\ p = handle_of h depth) -> view objs p.
+  (p = nullPtr \/ p = empty_handle q depth \/ (exists h, In h objs /\ p = handle_of h depth) \/
+   (exists idx, 0 <= idx < 4294967296 /\ p = mkPtr true (fst q) 0 idx (mkOS 0 0) 0 KIface false false false)) -> view objs p.
 Proof.
-  intros H C [->|[->|(h & Hh & ->)]].
+  intros H C [->|[->|[(h & Hh & ->)|(idx & Hi & ->)]]].
+  4:{ right. right. right. right. split; [reflexivity|exact Hi]. }
   - apply view_null.
-  - right. right. right. repeat split.
+  - right. right. right. left. repeat split.
   - right. left. split; [reflexivity|]. destruct (hi_good _ _ _ H h Hh) as [V _].
     assert (E : core (handle_of h depth) = core h) by (unfold core, handle_of; cbn; now rewrite V).
     rewrite E, (C h Hh). exact Hh.
@@ -901,6 +929,14 @@ Proof.
     + unfold obj_reg, obj_start. cbn [r_size]. change (obj_bytes (core h)) with (obj_bytes h). rewrite OB. cbn [core p_off p_comp h].
       unfold padToWord, u32. destruct nul; lia.
     + intros q Hq. unfold slots, tgt_of, h in Hq. cbn in Hq. destruct Hq.
+  - (* NewInterface *)
+    destruct (negb (valid_sid st sid)) eqn:EV.
+    { intros E _. injection E as <- _. exists objs, pads. now apply sinv_push_null. }
+    intros E _. injection E as <- _. exists objs, pads. cbn [sub_op] in Hop.
+    destruct P as [P C]. split; [exact H|]. split; [|exact C]. apply pool_ok_push; auto.
+    right. right. right. right. split; [reflexivity|]. cbn [p_len]. lia.
+  - (* AddCap *)
+    intros E _. injection E as <- _. exists objs, pads. apply sinv_same_segs; auto.
   - (* SetUint *)
     destruct (hget st h) as [l p] eqn:EH. cbn [sub_op] in Hop.
     unfold dset. destruct (set_in (st_w st) l _) as [w1| |] eqn:ES; intros E Hns; injection E as <- _;
@@ -1119,6 +1155,22 @@ Proof.
     destruct (root _ _ _) as [r rl]. intros E _. injection E as <- _. exists objs, pads. exact S.
   - (* dump *)
     destruct l; intros E _; injection E as <- _; exists objs, pads; exact S.
+  - (* reopen: the same bytes in a fresh multi-segment arena with cap = len; the old handles are
+       dropped, the tables stay *)
+    intros E _. injection E as <- _. exists objs, pads. destruct P as [P C].
+    set (m1 := mkBM AMulti (map (fun d => mkBS d (zlen d)) (bm_data (w_dst (st_w st)))) [] (init_rlimit (e_cfgd e))).
+    assert (ED : bm_data m1 = bm_data (w_dst (st_w st))).
+    { unfold bm_data at 1. cbn [bm_segs m1]. rewrite map_map. cbn [bs_data]. apply map_id. }
+    split; [|split; [|exact C]].
+    + cbn [st_w w_dst w_set_dst]. apply (hinv_same_data (w_dst (st_w st))); auto. split.
+      * unfold bmsg_wf. cbn [bm_segs m1]. apply Forall_forall. intros s Hs. apply in_map_iff in Hs.
+        destruct Hs as (d & <- & Hd). unfold bm_data in Hd. apply in_map_iff in Hd. destruct Hd as (b & <- & Hbs).
+        destruct (hi_inv _ _ _ H) as [Hw0 _]. unfold bmsg_wf in Hw0. rewrite Forall_forall in Hw0. destruct (Hw0 b Hbs) as [_ H8].
+        unfold seg_wf, blen in *. cbn [bs_data bs_cap]. lia.
+      * unfold arena_wf. cbn [bm_arena m1]. discriminate.
+    + cbn [st_h]. unfold pool_ok in *. rewrite Forall_forall in *. intros x Hx. apply in_map_iff in Hx.
+      destruct Hx as ([l0 p0] & <- & Hin0). destruct (P _ Hin0) as [El _]. cbn [fst] in El. subst l0. cbn [fst snd].
+      split; [reflexivity|apply view_null].
 Qed.
 
 (* ------------------------------------------------------------------ op lists *)
